@@ -584,7 +584,9 @@ func (e *End) write(p []byte) (n int, err error, again bool) {
 // Close implements net.Conn.
 func (e *End) Close() error {
 	e.p.k.Yield(PtOther)
-	return e.close()
+	err := e.close()
+	e.p.k.Poke()
+	return err
 }
 
 //go:norace
